@@ -42,6 +42,9 @@ def run(chk):
     gc.model_check(chk, "MCL", "MCL.tla", f"MCL_{t}.cfg", 300 if quick else 1500)
     gc.witnesses(chk, "MCL.tla", WITNESSES, {"Tier": "tiny"})
     gc.generate_and_replay(chk, "pairs", "GenL.tla", f"GenL_pair_{t}.cfg", timeout=300 if quick else 1200)
+    # boxes of side 0.1 .. 0.2 whose overlap is a sliver of a few 1e-6 (large lattice pairs replayed 10 000 times smaller):
+    # a tiny overlap is an overlap
+    gc.generate_and_replay(chk, "slivers", "GenL.tla", "GenL_sliver.cfg", timeout=300)
     gc.box_objects(chk, "c08", 3 if quick else 5)
     chk.assumptions += [
         "rigid motions and power-of-two scalings preserve intersection area (x s^2), IoU and too_far: TLC checks this for "
